@@ -707,6 +707,7 @@ type churnResult struct {
 	GoroutineDelta int            `json:"goroutine_delta"`
 	FDDelta        int            `json:"fd_delta"`
 	StopErr        string         `json:"stop_err,omitempty"`
+	NotClosed      int            `json:"not_closed_by_server"` // QUIT / protocol error: the server must close the connection itself
 	Counts         map[string]int `json:"counts,omitempty"`
 	Note           string         `json:"note,omitempty"`
 }
@@ -717,6 +718,8 @@ func rst(c net.Conn) {
 	}
 	c.Close()
 }
+
+var notClosedByServer int32 // connections that the server should have closed itself (after QUIT, after a protocol error) and did not
 
 func oneEnding(p *pki, s *sut, mode string, k int) {
 	big := strings.Repeat("x", 60000)
@@ -743,16 +746,39 @@ func oneEnding(p *pki, s *sut, mode string, k int) {
 	case "quit":
 		if c, err := net.DialTimeout("tcp", addr(s.plain), ioTimeout); err == nil {
 			exchange(c, resp("PING"))
-			exchange(c, resp("QUIT")+resp("PING"))
+			if k%2 == 0 {
+				exchange(c, resp("QUIT")+resp("PING"))
+			} else {
+				exchange(c, resp("QUIT"))
+			}
+			// the client keeps its end open and waits for the server to hang up, as QUIT clients do
 			c.SetDeadline(time.Now().Add(ioTimeout))
-			io.ReadAll(c)
+			if _, err := io.ReadAll(c); errors.Is(err, os.ErrDeadlineExceeded) { // (a reset is a close, too)
+				atomic.AddInt32(&notClosedByServer, 1)
+			}
+			c.Close()
+		}
+	case "quit-client-stays":
+		// one client at a time: after QUIT (and the end of the stream) the client keeps its socket open; the server has released
+		// the connection all the same - it is out of the registry
+		if c, err := net.DialTimeout("tcp", addr(s.plain), ioTimeout); err == nil {
+			exchange(c, resp("PING"))
+			exchange(c, resp("QUIT")+strings.Repeat(resp("PING"), k%3))
+			c.SetDeadline(time.Now().Add(ioTimeout))
+			if _, err := io.ReadAll(c); errors.Is(err, os.ErrDeadlineExceeded) {
+				atomic.AddInt32(&notClosedByServer, 1)
+			} else if !settle(func() bool { return len(s.srv.Conns()) == 0 }, 2*time.Second) {
+				atomic.AddInt32(&notClosedByServer, 1)
+			}
 			c.Close()
 		}
 	case "malformed":
 		if c, err := net.DialTimeout("tcp", addr(s.plain), ioTimeout); err == nil {
 			c.SetDeadline(time.Now().Add(ioTimeout))
 			c.Write([]byte(resp("PING") + "!bogus\r\n" + resp("PING")))
-			io.ReadAll(c)
+			if _, err := io.ReadAll(c); errors.Is(err, os.ErrDeadlineExceeded) { // (a reset is a close, too)
+				atomic.AddInt32(&notClosedByServer, 1)
+			}
 			c.Close()
 		}
 	case "stops-reading":
@@ -845,6 +871,7 @@ func modeChurn(args []string) {
 			return
 		}
 		res := churnResult{Mode: name, Cycles: n, InFlight: inflight, Counts: map[string]int{}}
+		atomic.StoreInt32(&notClosedByServer, 0)
 		var peak int32
 		sem := make(chan struct{}, inflight)
 		var wg sync.WaitGroup
@@ -867,6 +894,7 @@ func modeChurn(args []string) {
 		}
 		wg.Wait()
 		res.RegistryPeak = int(peak)
+		res.NotClosed = int(atomic.LoadInt32(&notClosedByServer))
 		var open []net.Conn
 		if stopWithOpen {
 			for i := 0; i < 5; i++ {
@@ -910,6 +938,7 @@ func modeChurn(args []string) {
 	for _, inflight := range []int{1, 8, 32} {
 		runBatch(fmt.Sprintf("mixed-%d-in-flight", inflight), func(int) string { return modes[int(next())%len(modes)] }, cycles, inflight, false)
 	}
+	runBatch("quit-client-stays", func(int) string { return "quit-client-stays" }, 6, 1, false)
 	runBatch("stop-with-open-connections", func(int) string { return modes[int(next())%len(modes)] }, cycles/4+8, 8, true)
 }
 
